@@ -58,6 +58,8 @@ extern long vt_alloc_count;		/* in-library allocations since reset */
 extern long vt_alloc_live;		/* in-library blocks still live */
 extern long vt_fail_at;			/* fail the k-th (1-based); 0 = never */
 extern long vt_failed;			/* number of injected failures so far */
+extern volatile int vt_pause;		/* >0: allocations are tracked but neither
+					   counted nor failed (observation calls) */
 extern void vt_alloc_reset_count(void);
 #define VT_IN()  (++vt_in_lib)
 #define VT_OUT() (--vt_in_lib)
